@@ -5,6 +5,9 @@ VERIF = os.path.dirname(os.path.dirname(os.path.abspath(__file__)))
 
 # id -> (category, technique, text, note, design_ref)
 CHECKS = {
+    'C04': ('exploration', 'trace and history monitoring of the real driver (mpmon, ASan build): scripted solver answers and scripted pre/postsolve histories through the real ValuePresolver, judged against rows identified by content',
+            'Random models (nonlinear/logical part + linear constraints with unique coefficient vectors + quadratic ranges) under four acceptance configurations receive scripted primal/dual/basis/IIS answers (exact, longer than the model, absent) and incoming sstatus/priority/lazy suffixes and initial guesses; the .sol file and every logged transfer are compared exactly with the scripted vectors through the documented mapping, value counts with the NL item counts, and every repetition of one of 7 pre/postsolve calls inside a random history of 6..14 calls with its first result.',
+            'values are judged only for original variables and for purely linear constraints whose delivered row is identified uniquely by content (plus the warm-start slack of converted ranges); other constraints only for counts and history independence; variable IIS codes restricted to non/low/fix/upp', '2/C04'),
     'C20': ('exploration', 'offline monitor over the file written by cvt:writegraph and the ModelAPI trace of the same run of the real driver (mpmon, ASan build)',
             'Random models (infinite bounds, free rows, extreme coefficients, several objectives, defined variables) under native/linear-only/mixed acceptance and names off/generic/from files containing quotes, backslashes, braces and commas are converted with the graph export on; every line is parsed by a strict JSON parser, NL and delivered items are checked for presence, every created constraint for exactly one consistent final status record, every link for known item classes and in-range indices, delivered rows for being linked exactly once, and the records marked final for equality (type, order, name, variables) with the AddConstraint calls.',
             'numbers are compared to 1e-5 relative (the writer prints about 6 digits); record order in the file is not constrained; with objno/multiobj only the objectives the converter receives are required', '2/C20'),
